@@ -96,7 +96,7 @@ def run(ck):
         ck.states += r.distinct
         ck.transitions += r.generated
         for a, (tk, gn) in r.coverage.items():
-            ck.cov[a] = ck.cov.get(a, 0) + tk
+            ck.cov[a] = ck.cov.get(a, 0) + gn
         if r.violated:
             # the Impl specification (the design the code is meant to follow) violates the property
             rp = ck.save_replay("impl_spec_%d" % idx, {"tlc.out": r.out, "program.txt": prog_text(prog)})
